@@ -113,6 +113,28 @@ DetectFailed(sc, rules, out) ==
     (IF UnknownRules(rules, out) # {} THEN {"protocluster_of_unknown_rule"} ELSE {})
     \cup UNION {RuleFailed(sc, rules, rules[k], out) : k \in DOMAIN rules}
 
+(* implementation-shaped companion of apply_cluster_rules: per gene the rules are visited in order; the window of
+   nearby genes is cached per distinct cutoff; in the pre-repair design ("stale") the flag that switches the ring
+   distance on was computed only when a window was computed (and only true for a two-part window), so a rule sharing an
+   earlier rule's cutoff inherited whatever the previous rule left behind; in the repaired design the flag is simply
+   "the record is circular" *)
+WindowTwoParts(sc, g, cutoff) ==
+    LET R == RingOfScene(sc)
+        span == Cover(R, {sc.locs[g]})
+        d == IF R.circ THEN MinOf({cutoff, (R.L - Size(span)) \div 2 + 1}) ELSE cutoff
+    IN  Len(Extend(R, span, d).parts) > 1
+RECURSIVE ImplFlagsFrom(_, _, _, _, _, _, _)
+ImplFlagsFrom(sc, g, rules, k, seen, flag, stale) ==
+    IF k > Len(rules) THEN <<>>
+    ELSE LET fresh == rules[k].cutoff \notin seen
+             now == IF ~stale THEN sc.circ
+                    ELSE IF fresh THEN (sc.circ /\ WindowTwoParts(sc, g, rules[k].cutoff)) ELSE flag
+         IN  <<now>> \o ImplFlagsFrom(sc, g, rules, k + 1, seen \cup {rules[k].cutoff}, now, stale)
+ImplAnchors(sc, rules, k, stale) ==
+    {g \in Genes(sc) : sc.hits[g] # <<>> /\
+        LET flags == ImplFlagsFrom(sc, g, rules, 1, {}, FALSE, stale)
+        IN  Anchors([SceneFor(sc, rules[k]) EXCEPT !.circ = flags[k]], rules[k].cond, g)}
+
 (* constructive reference (no extenders, suppliers ignored, superiors: drop iff covered): used to show
    the relation satisfiable and as the expected GeneView for the metamorphic checks of C07 *)
 RefProtos(sc, rules) ==
